@@ -89,6 +89,24 @@ Expected(r) ==
                              ELSE IF o.ok THEN [st |-> "ok", nests |-> ByClass(o.v)] ELSE [st |-> "err"]
       [] OTHER -> <<>>
 
+(* the law says something definite about the record (its precondition holds): used to pick the records of the  *)
+(* binding self-test (a record given another record's result must be rejected), see Trace_Nest_bound.cfg        *)
+Bound(r) ==
+    CASE r.op = "nest_jar" -> IsOk(r) /\ JarPre(JarIn(r), r.nests)
+      [] r.op = "agree" -> IsOk(r) /\ AgreePre(IF "jin" \in DOMAIN r THEN JarIn(r) ELSE RecipeJar(r.jar), r.nests, NormTree(r.tree))
+      [] r.op = "apply" -> LET M == NormTree(r.tree)
+                           IN MapPre(M, r.nests) /\ TranslateDefined(r.nests, M) /\ InjectiveOn(MapTable(r.nests), TreeClasses(M))
+      [] r.op = "undo" -> LET M == NormTree(r.tree)
+                          IN MapPre(M, r.nests) /\ InjectiveOn(MapTable(r.nests), Keys(r.nests)) /\ InjectiveOn(UndoTable(r.nests), TreeClasses(M))
+      [] r.op = "applyundo" -> LET M == NormTree(r.tree) IN MapPre(M, r.nests) /\ TranslateDefined(r.nests, M) /\ NoCapture(M, r.nests)
+      [] r.op = "remap_nests" -> WF(r.nests) /\ TranslateDefined(r.nests, NormTree(r.tree))
+      [] r.op = "read" -> \A i \in 1..Len(Lines(r.text)) : ~OnlyDescIllFormed(Lines(r.text)[i])
+      [] OTHER -> FALSE
+BNext ==
+    /\ l <= Len(Rec)
+    /\ l' = l + 1 /\ rej' = rej
+    /\ Bound(Rec[l]) => PrintT(ToJson([bound |-> l]))
+
 Init == l = 1 /\ rej = 0
 Next ==
     /\ l <= Len(Rec)
@@ -97,5 +115,6 @@ Next ==
        ELSE /\ PrintT(ToJson([reject |-> l, exp |-> Expected(Rec[l])]))
             /\ rej' = rej + 1
 Spec == Init /\ [][Next]_<<l, rej>>
+BSpec == Init /\ [][BNext]_<<l, rej>>
 Consumed == TLCGet("stats").diameter - 1 = Len(Rec)
 =============================================================================
